@@ -30,6 +30,7 @@ type Prop struct {
 
 var harnesses = []*Harness{
 	{Name: "keepclient", Pkg: "sdk/go/keepclient"},
+	{Name: "collfs", Pkg: "sdk/go/arvados", Instr: []InstrSpec{{Pkg: "sdk/go/arvados", Files: []string{"fs_*", "throttle.go", "contextgroup.go"}, Rules: "R1,R2,R3,R4,R5"}}},
 }
 
 var props = []*Prop{
@@ -43,6 +44,19 @@ var props = []*Prop{
 		LevelNote: "trusted: the simulated transport (request bodies fully read before the request is parked), the oracle's accounting, go1.26.8 synctest; service discovery over the API is replaced by LoadKeepServicesFromJSON",
 		Technique: "deterministic simulation: real keepclient Put path over a simulated transport with per-attempt fault injection and seeded response ordering; history oracle over delivered responses",
 		DesignRef: "5.11"},
+}
+
+func init() {
+	props = append(props, &Prop{ID: "C08", Harness: "collfs", Level: "exploration",
+		QuickRuns: 12000, QuickChunk: 300, QuickWallS: 60, ThoroughRuns: 2000000, ThoroughChunk: 2000, ThoroughWallS: 600, MaxSteps: 200000,
+		Rule: "C08: per run a block limit (1-64 bytes), writer throttle, optional initial manifest, name set and an operation sequence (geometric length) are drawn; one worker applies it to the real collection filesystem and to an in-memory model in lockstep while background Keep writes complete in scheduler-chosen order, possibly many operations later.",
+		Real: []string{"sdk/go/arvados collection filesystem (fs_base, fs_collection, fs_filehandle, throttle, contextgroup), instrumented: every lock acquisition and goroutine spawn is a scheduler decision"},
+		Stub: []string{"Keep (content-addressed map behind PutB/ReadAt/LocalLocator, every call a parked point)", "API client (records collection updates from Sync)"},
+		ExpectProbes: []string{"write-spans-blocks", "explicit-flush", "open-error", "rename-replaces-file"},
+		LevelText: "seeded exploration of operation histories x background-flush completion schedules; op-by-op refinement check against a plain in-memory filesystem model, plus size==sum(segments) invariant and an end-of-run full comparison",
+		LevelNote: "trusted: the model filesystem (POSIX-like rules as the property lists them), the Keep stub, the rewriter (sync->sim locks, go->tasks, sorted map ranges); operations whose outcome the property does not specify (opening directories for writing, directory renamed onto an existing entry, O_EXCL without O_CREATE) are not generated",
+		Technique: "deterministic simulation: instrumented collection filesystem under a seeded lock-level scheduler with controllable Keep-write completion; refinement against an executable reference model",
+		DesignRef: "5.8"})
 }
 
 func propByID(id string) *Prop {
